@@ -132,13 +132,57 @@ pub fn compare(bytes: &[u8], label: &str, r: &mut Report, rp: &dyn Fn() -> Json,
     }
 }
 
+/// Hand-picked inputs: every class of previously found defect plus the C04 crash corpus.
+pub fn directed_inputs() -> Vec<(String, Vec<u8>)> {
+    let d = crate::gram::db();
+    let h = crate::gram::header(0x0001_0600, 0, 100);
+    let mk = |ws: &[u32]| {
+        let mut w = h.clone();
+        w.extend_from_slice(ws);
+        words_to_bytes(&w)
+    };
+    let mut out = crate::mon::c04::directed_inputs();
+    let dec = d.inst("Decorate").opcode as u32;
+    // Decoration BankBitsINTEL (5835) with 0, 1, 2, 3 literals: the grammar lists a variadic literal
+    for n in 0..4u32 {
+        let mut ws = vec![((3 + n) << 16) | dec, 7, 5835];
+        ws.extend(1..=n);
+        out.push((format!("OpDecorate BankBitsINTEL with {} literal(s)", n), mk(&ws)));
+    }
+    // spec constant payloads with optional / variadic operands
+    let sc = 52u32;
+    let shuffle = d.inst("VectorShuffle").opcode as u32;
+    let extract = d.inst("CompositeExtract").opcode as u32;
+    let chain = d.inst("AccessChain").opcode as u32;
+    for n in 0..5u32 {
+        let mut ws = vec![((6 + n) << 16) | sc, 1, 2, shuffle, 3, 4];
+        ws.extend(0..n);
+        out.push((format!("OpSpecConstantOp VectorShuffle with {} component(s)", n), mk(&ws)));
+        let mut ws = vec![((5 + n) << 16) | sc, 1, 2, extract, 3];
+        ws.extend(0..n);
+        out.push((format!("OpSpecConstantOp CompositeExtract with {} index(es)", n), mk(&ws)));
+        let mut ws = vec![((5 + n) << 16) | sc, 1, 2, chain, 3];
+        ws.extend(10..10 + n);
+        out.push((format!("OpSpecConstantOp AccessChain with {} index(es)", n), mk(&ws)));
+    }
+    for hi in [1u32, 2, 0x8000, 0xffff] {
+        out.push((format!("OpSpecConstantOp payload opcode {:#x}", (hi << 16) | 126), mk(&[(5 << 16) | sc, 1, 2, (hi << 16) | 126, 3])));
+    }
+    // every module-level execution mode / decoration opcode with a parameterised enumerant
+    out.push(("OpExecutionModeId LocalSizeId".into(), mk(&[(6 << 16) | 331, 1, 38, 2, 3, 4])));
+    out.push(("OpExecutionMode LocalSize missing one literal".into(), mk(&[(5 << 16) | 16, 1, 17, 2, 3])));
+    out.push(("OpDecorate LinkageAttributes".into(), mk(&[(5 << 16) | dec, 1, 41, 0x0061_6263, 0])));
+    out.push(("OpDecorate LinkageAttributes unterminated name".into(), mk(&[(5 << 16) | dec, 1, 41, 0x6461_6263, 0])));
+    out
+}
+
 pub fn run(cfg: &Cfg, rep: &mut Report) {
     rep.rule = "well-formed modules from the table-directed generator (every opcode over the run) and 16 structured mutators (truncation at any byte, word-count corruption, unknown/other opcode, undeclared enumerant or mask bit, dropped/inserted operand word, header damage, trailing bytes, byte noise, string damage, word substitution, spec-constant payloads, constants of odd types, stacked) placed at a random instruction; every binary parsed with a recording consumer and compared with an independent reference acceptor: acceptance, delivered header and prefix, fault class, instruction number, byte offset inside the declared extent. distinct_nontrivial = distinct (reference verdict class, rspirv state, mutator) triples".into();
     rep.assumptions.push("grammar = frozen reference table and parameter lists; 1..3 trailing bytes that form no word are not judged; spec-constant payloads with context-dependent operands are unspecified".into());
     let d = crate::gram::db();
     let n_ops = d.insts.len() as u64;
     // ---- well-formed: every opcode at least once
-    run_stage(cfg, rep, "wellformed", cfg.n(n_ops, n_ops * 20), |idx, rng, r| {
+    run_stage(cfg, rep, "wellformed", cfg.n(n_ops * 4, n_ops * 20), |idx, rng, r| {
         let op = (idx % n_ops) as usize;
         let b = gen_base(rng, vec![op], true);
         let bytes = words_to_bytes(&b.words);
@@ -149,8 +193,19 @@ pub fn run(cfg: &Cfg, rep: &mut Report) {
         }
         r.count("instructions_compared", b.insts.len() as u64);
     });
+    // ---- directed inputs: regression cases of repaired defects and of the known finding, so that
+    // they are exercised deterministically on every run
+    let directed = directed_inputs();
+    let directed_ref = &directed;
+    run_stage(cfg, rep, "directed", directed.len() as u64, |idx, _rng, r| {
+        let (label, bytes) = &directed_ref[idx as usize];
+        let rp = || crate::util::replay_ref(cfg, "directed", idx);
+        if let Some(k) = compare(bytes, label, r, &rp, "C03") {
+            r.nontrivial(format!("directed:{}:{}", label, k));
+        }
+    });
     // ---- mutants
-    let n = cfg.n(40_000, 1_500_000);
+    let n = cfg.n(250_000, 1_500_000);
     run_stage(cfg, rep, "mutants", n, |idx, rng, r| {
         let must = if rng.chance(1, 2) { vec![rng.below(d.insts.len())] } else { vec![] };
         let small = rng.chance(2, 3);
@@ -167,7 +222,7 @@ pub fn run(cfg: &Cfg, rep: &mut Report) {
         }
     });
     // ---- exhaustive truncation of small modules at every byte offset
-    run_stage(cfg, rep, "truncation", cfg.n(300, 6_000), |idx, rng, r| {
+    run_stage(cfg, rep, "truncation", cfg.n(800, 6_000), |idx, rng, r| {
         let must_op = rng.below(d.insts.len());
         let b = gen_base(rng, vec![must_op], true);
         let bytes = words_to_bytes(&b.words);
